@@ -3,9 +3,9 @@ C14 — template instantiation preserves meaning.
 
 Model: lean/TmVerif/Model/Templates.lean (templated grammars, the denotational semantics `Der`,
 mirrors of resolveRef/sortArgs, PropagateLookaheads, check, Instantiate).
-Helper lemmas: lean/TmVerif/Proofs/Templates.lean, Proofs/TemplatesArgs.lean.
+Helper lemmas: lean/TmVerif/Proofs/Templates.lean, Proofs/TemplatesArgs.lean, Proofs/TemplatesLA.lean.
 -/
-import TmVerif.Proofs.Templates
+import TmVerif.Proofs.TemplatesLA
 namespace TmVerif.C14
 open TmVerif.CFG TmVerif.Templates
 
@@ -62,6 +62,16 @@ theorem C14_instantiate_lang_partial (g : TGrammar) (fuel : Nat) (insts : List I
           exact (derives_to_der hr hd hder).2 i it rfl hi
         · intro hder
           exact der_to_derives hr hder i it hi rfl rfl
+
+/-- non-vacuity: `%flag V; N0: 'a' B<+V> | 'b' B<~V>; B<V>: [V] 'c' | 'a';` instantiates, no instance is dead -/
+def liveExample : TGrammar :=
+  { nTerms := 4, params := [{ name := 0 }],
+    nts := [⟨[], [⟨none, [.t 1, .n 1 [⟨0, .value 1⟩]]⟩, ⟨none, [.t 2, .n 1 [⟨0, .value 0⟩]]⟩]⟩,
+            ⟨[0], [⟨some (.eq 0 1), [.t 3]⟩, ⟨none, [.t 1]⟩]⟩],
+    inputs := [(0, true)] }
+
+example : ∃ insts G, instantiate liveExample 10 = some (insts, G) ∧ NoDead liveExample insts :=
+  ⟨[⟨0, []⟩, ⟨1, [(0, 1)]⟩, ⟨1, [(0, 0)]⟩], _, rfl, by unfold NoDead; decide⟩
 
 /-- The hypothesis cannot be dropped, and this is a defect of the real code, not of the model: for
 `%flag V; N0: 'a' B<+V> | 'b' B<~V>; B<V>: [V] 'c';` the instance `B` with `V = false` has no enabled
@@ -160,5 +170,99 @@ theorem C14_inputs_use_defaults (g : TGrammar) (fuel : Nat) (insts : List Inst) 
           exact hlang.mp hder
         · intro hder
           exact ⟨_, hG, hlang.mpr hder⟩
+
+/-- Arguments (`resolveRef`, `sortArgs`): the loaded model, in which every declared parameter of a
+referenced nonterminal has an explicit argument (taken from the caller's parameter of the same NAME,
+otherwise the parameter's DEFAULT), means what the source means under the rule "same-named parameter of
+the caller, else the default" (`srcImp`), for every nonterminal and every valuation. -/
+theorem C14_resolved_args_sound (src m : TGrammar) (h : resolveAll src = some m)
+    (N : Nat) (env : Env) (w : List Nat) :
+    Der (srcImp src) src N env w ↔ Der (laImp m) m N env w :=
+  resolveAll_sound h N env w
+
+/-- `PropagateLookaheads`, full statement: propagation keeps the meaning of every input. -/
+def C14_propagate_args_sound_full : Prop :=
+  ∀ (m m' : TGrammar), propagate m = (.ok, m') →
+    ∀ (k : Nat) (i : Nat × Bool), m.inputs[k]? = some i → ∀ w,
+      (Der (laImp m) m i.1 env0 w ↔ Der noImp m' i.1 env0 w)
+
+/-- What is proved: the statement under the decidable certificate `propCertB m (laFlags m) m'`, which the
+driver evaluates on EVERY case (a compiled grammar whose certificate fails is reported as a disagreement):
+`m'` differs from `m` only by lookahead parameters added to nonterminals and by arguments `p := p`
+(on the first symbol of an alternative, where the flag flows implicitly) and `p := false` (where it does
+not flow, or the caller does not have it) — these leave the meaning unchanged when an unset lookahead flag
+is `false`. WHICH nonterminals receive a flag is not derived from the worklist of the mirror; it is only
+checked through the certificate (the flag sets `laFlags m` serve as the witness). General form: any two
+environments related by `EnvRel` give the same language. -/
+theorem C14_propagate_args_sound_partial (m m' : TGrammar) (hcert : propCertB m (laFlags m) m' = true)
+    (N : Nat) (nt' : Nonterm) (hN : m'.nts[N]? = some nt') (e e' : Env)
+    (hR : EnvRel m (Fof (laFlags m) N) nt'.params e e') (w : List Nat) :
+    Der (laImp m) m N e w ↔ Der noImp m' N e' w :=
+  ⟨fun h => propagate_forward hcert h nt' e' hN hR, fun h => propagate_backward hcert h nt' e hN hR⟩
+
+/-- End to end (`compileParser`'s template pipeline: load, propagate lookahead flags, instantiate): the
+sentences of input `k` of the instantiated plain grammar are exactly what the input nonterminal's template
+derives at SOURCE level with nothing bound: parameters of the nonterminals below come from explicit
+arguments, from the caller's parameter of the same name, or from their DEFAULTS; lookahead flags are
+`false` unless passed. Hypotheses: the propagation certificate (third component of `compile`, checked by
+the driver on every case) and `NoDead` (see `C14_dead_instance_counterexample`). -/
+theorem C14_pipeline_inputs_use_defaults (src : TGrammar) (fuel : Nat) (insts : List Inst) (G : Grammar)
+    (h : compile src fuel = (.ok, some (insts, G), true))
+    (k : Nat) (i : Nat × Bool) (hk : src.inputs[k]? = some i) (w : List Nat) :
+    ∃ m', (NoDead m' insts → (Sentence G k w ↔ Der (srcImp src) src i.1 env0 w)) ∧
+      (∃ m, resolveAll src = some m ∧ propagate m = (.ok, m') ∧ instantiate m' fuel = some (insts, G)) := by
+  unfold compile at h
+  cases hr : resolveAll src with
+  | none => simp [hr] at h
+  | some m =>
+    simp only [hr] at h
+    cases hp : propagate m with
+    | mk st m' =>
+      cases st with
+      | err => simp [hp] at h
+      | fatal => simp [hp] at h
+      | ok =>
+        simp only [hp] at h
+        cases hi : instantiate m' fuel with
+        | none => simp [hi] at h
+        | some r =>
+          simp only [hi] at h
+          have h1 := (Prod.mk.inj h).2
+          have h2 := Prod.mk.inj h1
+          have hre : r = (insts, G) := Option.some.inj h2.1
+          have hcert : propCertB m (laFlags m) m' = true := h2.2
+          subst hre
+          refine ⟨m', ?_, m, rfl, hp, hi⟩
+          intro hd
+          obtain ⟨hin, hcm⟩ := propagate_ok_spec hp
+          obtain ⟨_, _, hin0, _⟩ := resolveAll_spec hr
+          have hk' : m'.inputs[k]? = some i := by rw [hin, hin0]; exact hk
+          -- the input nonterminal has no parameters in m'
+          have hmem : i ∈ m'.inputs := List.mem_of_getElem? hk'
+          simp only [checkModel, Bool.and_eq_true, List.all_eq_true] at hcm
+          have hnp := hcm.1 i hmem
+          cases hnt : m'.nts[i.1]? with
+          | none => simp [hnt] at hnp
+          | some nt' =>
+            simp only [hnt, List.isEmpty_iff] at hnp
+            have hR : EnvRel m (Fof (laFlags m) i.1) nt'.params env0 env0 := by
+              rw [hnp]; exact envRel_env0 _
+            have e1 := resolveAll_sound hr i.1 env0 w
+            have e2 := C14_propagate_args_sound_partial m m' hcert i.1 nt' hnt env0 env0 hR w
+            have e3 := (C14_inputs_use_defaults m' fuel insts G hi hd k i hk' w).2
+            exact e3.trans (e2.symm.trans e1.symm)
+
+/-- non-vacuity: `%lookahead flag L; %flag A = true; N0: N1<+L> 'a' | 'b' N1 ; N1<A>: [L && A] 'c' | 'a';`
+goes through the whole pipeline with a valid certificate and without dead instances. -/
+def pipelineExample : TGrammar :=
+  { nTerms := 4, params := [{ name := 0, la := true }, { name := 1, dflt := some 1 }],
+    nts := [⟨[], [⟨none, [.n 1 [⟨0, .value 1⟩], .t 1]⟩, ⟨none, [.t 2, .n 1 []]⟩]⟩,
+            ⟨[1], [⟨some (.and [.eq 0 1, .eq 1 1]), [.t 3]⟩, ⟨none, [.t 1]⟩]⟩],
+    inputs := [(0, true)] }
+
+example : ∃ insts G, compile pipelineExample 20 = (.ok, some (insts, G), true) ∧
+    insts = [⟨0, []⟩, ⟨1, [(1, 1), (0, 1)]⟩, ⟨1, [(1, 1), (0, 0)]⟩] ∧
+    G.rules.toList = [⟨4, [5, 1], 0⟩, ⟨4, [2, 6], 0⟩, ⟨5, [3], 0⟩, ⟨5, [1], 0⟩, ⟨6, [1], 0⟩] :=
+  ⟨_, _, rfl, rfl, rfl⟩
 
 end TmVerif.C14
